@@ -56,7 +56,7 @@ def run(ctx, factor):
             rep.violate("operand-normal-form", case, {"operands": exp[2]}, {"outcome": s[0], "operands": got},
                         model_agrees_with_spec=(m[0] == "ok" and gen.decode_stream(m[1]) and gen.decode_stream(m[1])[0][2] == exp[2]))
         rep.case(case, s[0] == "ok", tags=["operands=%d" % nops] + ["form:" + o["k"] + ("/" + "".join(sorted(k for k in o if k in "abc" or k == "disp")) if o["k"] == "mem" else "") for o in line["ops"]])
-        if rep.violations and factor > 1:
+        if rep.has_new() and factor > 1:
             return
 
 
